@@ -259,7 +259,7 @@ class Schema:
         return T("td", name=name)
 
     def new_dc(self, depth, root=False, prefix="f", base: str | None = None, tag=None, discr_field=None,
-               force_native=False, need_mixin=False, force_self=False) -> T:
+               force_native=False, need_mixin=False, force_self=False, wrapped_opts=False) -> T:
         """tag = (field name, literal): adds `field: Literal[lit] = lit`; discr_field: class-level
         Config.discriminator on that field (include_subtypes); force_native: one field of a type that some
         format dialect declares native"""
@@ -299,6 +299,11 @@ class Schema:
                 f[2] = "3"
             elif t.kind == "list" and r.random() < 0.2:
                 f[2] = "field(default_factory=list)"
+        if wrapped_opts and base is None and discr_field is None:
+            # required nullable fields under the other spellings of Optional (is_field_nullable must see through them)
+            fields.append([f"{prefix}{name.lower()}_wa", T("opt", T("int"), "annotated"), None])
+            fields.append([f"{prefix}{name.lower()}_wf", T("opt", T("str"), "final"), None])
+            fields.append([f"{prefix}{name.lower()}_wu", T("opt", T("date"), "union"), None])
         inherited = []
         bases = []
         if base is not None:
